@@ -96,6 +96,73 @@ fn ext_cases(o: &mut Out, r: &mut Rng, b: &[u64], n: usize) {
     }
 }
 
+/// modular inverse of a modulo m (m < 2^63), if it exists
+fn inv_mod(a: u128, m: u128) -> Option<u128> {
+    let (mut r0, mut r1) = (m as i128, (a % m) as i128);
+    let (mut t0, mut t1) = (0i128, 1i128);
+    while r1 != 0 { let q = r0 / r1; (r0, r1) = (r1, r0 - q * r1); (t0, t1) = (t1, t0 - q * t1); }
+    if r0 != 1 { return None; }
+    Some(((t0 % m as i128 + m as i128) % m as i128) as u128)
+}
+
+/// (x, y) with  p*x + q*y = 2^128 + eps  exactly, x, y < 2^64 (p high, q below 2^40): the carry out of a
+/// 128-bit accumulator that receives two products is set and the wrapped sum is the tiny `eps`.
+fn solve_carry(p: u64, q: u64, eps: u128) -> Option<(u64, u64)> {
+    let (pp, qq) = (p as u128, q as u128);
+    if qq < 2 { return None; }
+    let t_mod = ((u128::MAX % qq) + 1 + eps) % qq;                 // (2^128 + eps) mod q
+    let x0 = t_mod * inv_mod(pp, qq)? % qq;                        // x = x0 (mod q)
+    // the largest x = x0 + k q below 2^64 with p*x <= 2^128 + eps
+    let mut x = x0 + ((u64::MAX as u128 - x0) / qq) * qq;
+    for _ in 0..4 {
+        let px = pp * x;                                           // < 2^128
+        let diff = 0u128.wrapping_sub(px).wrapping_add(eps);       // 2^128 + eps - p x   (if that is below 2^128)
+        if diff % qq == 0 && diff / qq <= u64::MAX as u128 && (px > eps) { return Some((x as u64, (diff / qq) as u64)); }
+        if x < qq { break; }
+        x -= qq;
+    }
+    None
+}
+
+/// Extension products whose cross terms land exactly on / just above 2^128 (carry set, wrapped accumulator
+/// below 2^32 or 2^64): the delayed-reduction paths of ext2/ext4/ext5 multiplication.
+fn ext_carry_cases(o: &mut Out, r: &mut Rng, n: usize) {
+    let eps_list: [u128; 8] = [0, 1, (1 << 32) - 1, 1 << 32, (1 << 32) + 1, (1 << 63) - 1, (1u128 << 64) - 1, 1u128 << 64];
+    let mut made = 0;
+    let mut tries = 0;
+    while made < n && tries < 50 * n {
+        tries += 1;
+        let p = match r.below(3) { 0 => P - 1 - r.below(4), 1 => u64::MAX - r.below(1 << 20), _ => (1u64 << 63) + r.next_u64() % (1 << 63) };
+        let q = match r.below(3) { 0 => (1u64 << 34) - 2 + r.below(8), 1 => 3 + 2 * r.below(1 << 30), _ => 1 + r.next_u64() % (1 << 39) };
+        let eps = eps_list[r.below(eps_list.len() as u64) as usize];
+        let Some((x, y)) = solve_carry(p, q, eps) else { continue };
+        made += 1;
+        // D = 2: c1 = a0 b1 + a1 b0 ; also the same pattern on c0 = a0 b0 + 7 a1 b1 (7 q instead of q is not solved for: other pattern)
+        let (a, c) = ([p, q], [y, x]);          // a0 = p, a1 = q, b0 = y, b1 = x : a0 b1 + a1 b0 = p x + q y
+        let args2: Vec<u128> = a.iter().chain(c.iter()).map(|&v| v as u128).collect();
+        o.case("ext2mul", &args2, || fh::ext2_mul([a[0], a[1]], [c[0], c[1]]).iter().map(|v| v.0).collect());
+        let (a, c) = ([q, p], [x, y]);          // swapped roles
+        let args2: Vec<u128> = a.iter().chain(c.iter()).map(|&v| v as u128).collect();
+        o.case("ext2mul", &args2, || fh::ext2_mul([a[0], a[1]], [c[0], c[1]]).iter().map(|v| v.0).collect());
+        // D = 4 / 5: the two products placed on every coordinate k = i + j = i' + j' (other limbs zero or random small)
+        for k in 1..4usize {
+            let (i, j) = (0usize, k);
+            let (i2, j2) = (k, 0usize);
+            let mut a4 = [0u64; 4]; let mut c4 = [0u64; 4];
+            a4[i] = p; c4[j] = x; a4[i2] = q; c4[j2] = y;
+            if i == i2 { continue; }
+            let args4: Vec<u128> = a4.iter().chain(c4.iter()).map(|&v| v as u128).collect();
+            o.case("ext4mul", &args4, || fh::ext4_mul(a4, c4).iter().map(|v| v.0).collect());
+        }
+        for k in 1..5usize {
+            let mut a5 = [0u64; 5]; let mut c5 = [0u64; 5];
+            a5[0] = p; c5[k] = x; a5[k] = q; c5[0] = y;
+            let args5: Vec<u128> = a5.iter().chain(c5.iter()).map(|&v| v as u128).collect();
+            o.case("ext5mul", &args5, || fh::ext5_mul(a5, c5).iter().map(|v| v.0).collect());
+        }
+    }
+}
+
 fn wide_cases(o: &mut Out, r: &mut Rng, b: &[u64], n: usize) {
     for i in 0..n {
         // u128 inputs: products of boundary values, boundary pairs (hi, lo), random
@@ -260,6 +327,7 @@ pub fn run(seed: u64, tier: &str, w: &mut dyn Write) -> usize {
     }
     wide_cases(&mut o, &mut r, &b, nrand / 4);
     ext_cases(&mut o, &mut r, &b, nrand / 10);
+    ext_carry_cases(&mut o, &mut r, if tier == "thorough" { 400 } else { 60 });
     generic_cases(&mut o, &mut r, &b, nrand / 30);
     packed_cases(&mut o, &mut r, &b, nrand / 10);
     o.n
